@@ -198,6 +198,27 @@ def run(ctx, res):
             res.fail("C04 strict: a bad property line outside a lenient component was accepted", {"bad": bad, "text": wrap(todo)})
         except ValueError:
             pass
+    # ---- a bad line that stands outside every component (after a finished top-level VEVENT, between two, before the first)
+    #      belongs to no lenient component: the parse fails, in every reading mode
+    evt = "BEGIN:VEVENT\r\nUID:u\r\nEND:VEVENT\r\n"
+    for bad in BAD_LINES:
+        for shape_, text in (("after", evt + bad + "\r\n"), ("between", evt + bad + "\r\n" + evt), ("before", bad + "\r\n" + evt),
+                             ("after-two", evt + evt + bad + "\r\n"), ("after-todo-event", evt.replace("VEVENT", "VTODO") + evt + bad + "\r\n")):
+            for mode, call in (("multiple", lambda t: icalendar.Component.from_ical(t, multiple=True)),
+                               ("event-multiple", lambda t: icalendar.Event.from_ical(t, multiple=True)),
+                               ("single", lambda t: icalendar.Event.from_ical(t))):
+                if mode == "single" and shape_ in ("between", "after-two", "after-todo-event"):
+                    continue
+                res.evaluations += 1
+                try:
+                    got = call(text)
+                except ValueError:
+                    continue
+                except Exception as e:  # noqa: BLE001
+                    res.fail("C04 strict: a bad line outside every component escapes as " + type(e).__name__, {"text": text, "mode": mode})
+                    continue
+                res.fail("C04 strict: a bad line outside every component was accepted", {"text": text, "mode": mode, "where": shape_},
+                         observed=[T.obs_comp(c) for c in (got if isinstance(got, list) else [got])])
     res.extra["isolation_cases"] = n_iso
     res.sample({"mutated": cases[len(corpus) + 3][1][:400], "outcome": exercise(cases[len(corpus) + 3][1], True)})
 
